@@ -42,6 +42,13 @@ def _flat_and(c):
         for x in c[2]:
             out.extend(_flat_and(x))
         return out
+    if c[0] == 'not' and c[1][0] == 'boolop' and c[1][1] == 'or':
+        out = []                                   # not (a or b)  =  not a and not b
+        for x in c[1][2]:
+            out.extend(_flat_and(('not', x)))
+        return out
+    if c[0] == 'not' and c[1][0] == 'not':
+        return _flat_and(c[1][1])
     return [c]
 
 
